@@ -175,6 +175,14 @@ fn reject_all_import() -> Arc<table::PolicyAssignment> {
     pt.build_assignment(None, "global", table::PolicyDirection::Import, table::Disposition::Accept, vec!["p".to_string()]).unwrap()
 }
 
+fn set_med_import() -> Arc<table::PolicyAssignment> {
+    let mut pt = table::PolicyTable::new();
+    let actions = table::Actions { med: Some(table::MedAction { action_type: table::MedActionType::Replace, value: 50 }), ..Default::default() };
+    pt.add_statement("s", Vec::new(), Some(table::Disposition::Accept), actions).unwrap();
+    pt.add_policy("p", vec!["s".to_string()]).unwrap();
+    pt.build_assignment(None, "global", table::PolicyDirection::Import, table::Disposition::Accept, vec!["p".to_string()]).unwrap()
+}
+
 struct Scenario {
     name: &'static str,
     /// builds (tables, thread bodies, slot that will hold the subscription)
@@ -447,6 +455,9 @@ enum SOp {
 struct SeqModel {
     ops: Vec<SOp>,
     px: (Vec<u8>, Vec<u8>),
+    /// the import policy the toggle installs: false = reject everything, true = accept and overwrite the MED
+    /// (the announcements differ in nothing but their MED)
+    set_med: bool,
 }
 
 struct SeqSys {
@@ -472,7 +483,7 @@ struct SeqSys {
 impl crate::verif::vx::bfs::Model for SeqModel {
     type Sys = SeqSys;
     fn name(&self) -> String {
-        "c18-sequential".into()
+        if self.set_med { "c18-sequential-setmed".into() } else { "c18-sequential".into() }
     }
     fn n_ops(&self) -> usize {
         self.ops.len()
@@ -563,7 +574,7 @@ impl crate::verif::vx::bfs::Model for SeqModel {
             }
             SOp::PolicyToggle => {
                 sys.policy_on = !sys.policy_on;
-                sys.tables.import_policy.store(if sys.policy_on { Some(reject_all_import()) } else { None });
+                sys.tables.import_policy.store(if sys.policy_on { Some(if self.set_med { set_med_import() } else { reject_all_import() }) } else { None });
             }
             SOp::NhDown => {
                 if sys.nh_down {
@@ -718,7 +729,7 @@ fn fold_into(rx: &mut mpsc::UnboundedReceiver<BgpEvent>, pre: &mut BTreeMap<Key,
     trace
 }
 
-fn seq_model(px: &(Vec<u8>, Vec<u8>)) -> SeqModel {
+fn seq_model(px: &(Vec<u8>, Vec<u8>), set_med: bool) -> SeqModel {
     let mut ops = Vec::new();
     for peer in 0..2u8 {
         for pfx in 0..2u8 {
@@ -733,7 +744,11 @@ fn seq_model(px: &(Vec<u8>, Vec<u8>)) -> SeqModel {
     ops.extend([SOp::GrDown, SOp::Reconnect, SOp::PurgeStale, SOp::TimerDrop, SOp::LlgrStart, SOp::LlgrPurge]);
     ops.extend([SOp::NhDown, SOp::NhUp]);
     ops.extend([SOp::PeerDrop, SOp::PolicyToggle, SOp::SoftResetIn, SOp::StartDeferral, SOp::EndDeferral, SOp::Subscribe, SOp::Unsubscribe]);
-    SeqModel { ops, px: px.clone() }
+    if set_med {
+        // the focused variant: re-announcements under an attribute-rewriting policy
+        ops = vec![SOp::Insert { peer: 0, pfx: 0, attr: 1 }, SOp::Insert { peer: 0, pfx: 0, attr: 2 }, SOp::Remove { peer: 0, pfx: 0 }, SOp::Insert { peer: 1, pfx: 0, attr: 1 }, SOp::PolicyToggle, SOp::SoftResetIn, SOp::Subscribe, SOp::Unsubscribe];
+    }
+    SeqModel { ops, px: px.clone(), set_med }
 }
 
 fn sched_str(x: &sched::Execution) -> String {
@@ -757,8 +772,8 @@ pub(crate) fn run(replay: Option<&str>) -> Report {
             rep.evaluations = 1;
             return rep;
         }
-        if case.starts_with("c18-sequential#") {
-            let m = seq_model(&px);
+        if case.starts_with("c18-sequential#") || case.starts_with("c18-sequential-setmed#") {
+            let m = seq_model(&px, case.starts_with("c18-sequential-setmed#"));
             if let Some((_, hist)) = crate::verif::vx::bfs::decode_case(case) {
                 eprintln!("replay {}", crate::verif::vx::bfs::render(&m, &hist));
                 rep.violations_from(crate::verif::vx::bfs::replay(&m, &hist, true));
@@ -860,9 +875,10 @@ pub(crate) fn run(replay: Option<&str>) -> Report {
     rep.add("distinct_event_sequences", outcomes.len() as u64);
     // sequential part: every subscribe / unsubscribe point in a history
     let before = rep.states;
-    let m = seq_model(&px);
+    let m = seq_model(&px, false);
     let depth = if thorough { 10 } else { 6 };
     crate::verif::vx::bfs::bfs(&m, &crate::verif::vx::bfs::BfsCfg { max_depth: depth, max_secs: if thorough { 600 } else { 20 }, ..Default::default() }, &mut rep);
+    crate::verif::vx::bfs::bfs(&seq_model(&px, true), &crate::verif::vx::bfs::BfsCfg { max_depth: depth + 1, max_secs: if thorough { 300 } else { 20 }, ..Default::default() }, &mut rep);
     rep.notes.push(format!("c18-sequential: BFS depth {depth} over insert (accepted / rejected by import policy) / remove / peer drop / GR drop / reconnect / stale purge / timer drop / LLGR start / LLGR purge / soft_reset_in / policy toggle / deferral / subscribe(snapshot) / unsubscribe: {} states; the subscriber's folded view is compared with the RIB after every step", rep.states - before));
     super::c18bmp::run_into(&mut rep, thorough);
     rep
